@@ -96,9 +96,10 @@ func (valdec byteArrayDecoder) copy(p interface{}, data []byte) {
 func (valdec byteArrayDecoder) Decode(dec *Decoder, p interface{}, tag byte) {
 	switch tag {
 	case TagBytes:
+		// copy before the closing quote is skipped: skipping may refill the buffer data points into
 		data := dec.UnsafeNext(dec.ReadCount())
-		dec.Skip()
 		valdec.copy(p, data)
+		dec.Skip()
 		dec.AddReference(p)
 	case TagUTF8Char:
 		data, _ := dec.readStringAsBytes(1)
